@@ -14,8 +14,35 @@ use std::convert::TryFrom;
 use std::io::{Read, Write};
 use std::time::Duration;
 
+/// the status codes of the model (those with a registered reason phrase below) that the library knows
 pub fn all_status() -> Vec<(u16, StatusCode)> {
-    (100u16..600).filter_map(|c| StatusCode::try_from(c).ok().map(|s| (c, s))).collect()
+    (100u16..600).filter(|c| !phrases(*c).is_empty()).filter_map(|c| StatusCode::try_from(c).ok().map(|s| (c, s))).collect()
+}
+
+/// number <-> StatusCode: try_from accepts exactly the modelled codes and converts back to the same number
+fn status_table(st: &mut Stats) {
+    let mut s = Stats::default();
+    for c in 0u16..1000 {
+        s.evaluations += 1;
+        s.states += 1;
+        s.transitions += 1;
+        let known = !phrases(c).is_empty();
+        match std::panic::catch_unwind(|| StatusCode::try_from(c).ok().map(|sc| (u16::from(sc), <&str>::from(sc).to_string()))) {
+            Err(_) => s.violation("status table: conversion panicked", || json!({"code": c})),
+            Ok(Some((back, phrase))) => {
+                if !known {
+                    s.violation("status table: a number that is not a modelled status code is accepted", || json!({"code": c, "as": phrase}));
+                } else if back != c || !phrases(c).contains(&phrase.as_str()) {
+                    s.violation("status table: a status code maps to another number or to a reason phrase registered for a different code", || json!({"code": c, "converted_back_to": back, "reason_phrase": phrase, "registered": phrases(c)}));
+                } else {
+                    s.outcome("status-known");
+                }
+            }
+            // which registered codes the library supports is its own choice
+            Ok(None) => s.outcome(if known { "status-registered-but-unsupported" } else { "status-unknown" }),
+        }
+    }
+    st.merge(s);
 }
 
 /// reason phrases accepted for a code: RFC 2616, RFC 7231 and RFC 9110 wordings
@@ -642,6 +669,7 @@ fn client_family(cx: &mut Ctx, st: &mut Stats) {
 pub fn run(mut cx: Ctx) -> ! {
     cx.rule = "responses built through the public API over every modelled status code x header lists (incl. all 256 Set-Cookie attribute combinations and 33/40-field sets) x bodies are serialised, checked against the RFC 7230 grammar and parsed back; wire responses for every status x {Content-Length, chunked in every composition of bodies <= 6 bytes, both hex cases} are parsed under every read plan; the real Client follows every redirect chain of length <= 3 (4) over {301,302,307} x {relative, absolute} against a scripted server on 127.0.0.1:80; states = distinct responses/chains, transitions = serialise/parse/exchange calls; non-trivial = cases with headers, all wire responses, chains with >= 1 redirect".into();
     let mut st = Stats::default();
+    status_table(&mut st);
     serialise_family(&mut st, cx.quick());
     parser_family(&mut st, cx.quick());
     client_family(&mut cx, &mut st);
